@@ -91,6 +91,30 @@ CHECKS = {
         "text": "All single mutations of 31 seed requests (incl. PUT/DELETE/PATCH/POST uploads, multipart filenames and ?name= values pointing outside) and 10 asset/dir targets x 6 methods are sent to the real binary running under strace -f; every path-naming system call is an event, and the full manifest (paths, kinds, sizes, hashes, link targets) of the served tree, a sibling directory and the parent is compared before/after.",
         "note": "Trusted: strace's view of the process, the manifest walker. Paths under /dev, /proc, /sys are exempt.",
     },
+    "C14": {
+        "level": "model_checking",
+        "technique": "TLA+ request codec predicates (Codec_Http: round-trip field equality, accept/reject classes); TLC-enumerated request values and request-line near misses run through Request::generate / Request::parse; results validated by TLC (Trace_Codec)",
+        "text": "9 methods x 4 versions, 7 target classes x header lists (0..3, duplicates, 50) with values containing ':' / ': ' / '=' / outer blanks / empty / non-ASCII, 9 body classes incl. bodies beginning with CRLF and all 256 byte values: parse(generate(r)) must equal r field by field and header lookup must ignore case; 60 request-line near misses are classed by the statement (valid / unknown method / unknown version / incomplete / not UTF-8 must be Ok resp. Err; lower-case and extra-space spellings are free).",
+        "note": "Values are finite classes chosen to hit every separator the parser splits on; random larger values are the thorough tier's job.",
+    },
+    "C15": {
+        "level": "model_checking",
+        "technique": "TLA+ response codec predicates (Codec_Http); TLC-enumerated response values through both serialisers and Response::parse; corrupted serialisations; validated by TLC (Trace_Codec)",
+        "text": "Both serialisers x statuses (all 61 registered once, 8 in depth) x header lists x single parts over 12 body classes, all pairs of classes as two parts, 3..6 parts; status, reason, headers, content types, ranges and body bytes must come back; unknown status, mismatched phrase, missing opening/closing boundary, part without blank line must be rejected.",
+        "note": "Known finding KF-C15-generate-drops-content-type (pinned by src/response/example).",
+    },
+    "C16": {
+        "level": "model_checking",
+        "technique": "TLA+ multipart predicates (Codec_Multipart incl. the precondition 'boundary not in data' on bytes); TLC-enumerated part lists x boundaries through FormMultipartData::generate / parse; validated by TLC (Trace_Codec)",
+        "text": "8 boundary classes (short, long, interior hyphens, punctuation, 50 dashes) x 18 body classes (lengths 0..3 over CR/LF/dash/letter, CRLF at either end, binary) as single parts, all pairs as two parts, 3..8 parts; parts must come back in order with headers and exact bodies; three corruptions rejected; browser-style boundary parameter extracted.",
+        "note": "Cases whose data contains the boundary are outside the property's precondition and are skipped by the spec, not by the harness.",
+    },
+    "C17": {
+        "level": "model_checking",
+        "technique": "TLA+ map round-trip predicate (Codec_Percent); TLC-enumerated name/value maps through URL::build_query/parse_query, FormUrlEncoded, and the two echo endpoints via Server::process; validated by TLC (Trace_Codec)",
+        "text": "8.8k maps: names and values over 28 atoms (reserved characters, % followed by hex / non-hex, encodings of encodings, non-ASCII, astral) and all two-atom concatenations, one and two pairs, 0/3/20 pairs, each through four legs; decoded pairs compared as sets.",
+        "note": "Known finding KF-C17-double-decoding (in the url-search-params dependency).",
+    },
     "C18": {
         "level": "model_checking",
         "technique": "TLA+ spec of RFC 4648 (Codec_Base64) model-checked by TLC; TLC-enumerated inputs replayed on Base64::encode/decode; trace validation by TLC",
